@@ -12,11 +12,12 @@ import P2P.Drv.Cif
 import P2P.Drv.FF
 import P2P.Drv.SS
 import P2P.Drv.Termini
+import P2P.Drv.Pka
 
 open P2P P2P.Drv
 
 def allHandlers : List (String × Handler) :=
-  PqrD.handlers ++ PdbReadD.handlers ++ DxD.handlers ++ PsizeD.handlers ++ CifD.handlers ++ FFD.handlers ++ SSD.handlers ++ TerminiD.handlers
+  PqrD.handlers ++ PdbReadD.handlers ++ DxD.handlers ++ PsizeD.handlers ++ CifD.handlers ++ FFD.handlers ++ SSD.handlers ++ TerminiD.handlers ++ PkaD.handlers
 
 def answer (line : Str) : Str :=
   let line := line.filter (fun c => c ≠ '\n' && c ≠ '\r')
